@@ -377,6 +377,10 @@ def run_scenario(ctx, conf, nticks, kill, resume, workdir, tag, census=False):
     nw = sum(s["w"] for s in st.values())
     nontrivial = (killed and nw > 0) or (not killed and any(s["flushes"] for s in st.values()))
     ctx.case(casekey, nontrivial=nontrivial)
+    if killed and kill["kind"] == "tick" and kill["tick"] in (7, 13) and conf["keep"]:
+        ctx.sample({"config": conf, "killed_at_start_of_tick": kill["tick"],
+                    "per_log": {n_: {"last_written": st[n_]["written"], "last_flushed": st[n_]["flushed"],
+                                     "rotations": st[n_]["rot"]} for n_ in LOGS}})
     if killed:
         ctx.hit("kills_performed")
         ctx.hit("kills_at_line" if kill["kind"] == "line" else "kills_at_tick")
@@ -537,6 +541,21 @@ def line_points(report):
     return pts, cnt
 
 
+def census_run(ctx, conf, n, workdir, tag, count):
+    """Un-killed run with the LINE monitor reporting every executed line of the
+    anchored functions; decided like any normal end by the shard that counts it."""
+    if count:
+        return run_scenario(ctx, conf, n, None, False, workdir, tag, census=True)
+    prefix = os.path.join(workdir, "p-%s" % tag)
+    os.makedirs(prefix)
+    spec, ids, _ = make_spec(conf, n, 0)
+    rc, report, err = logx.run_child({"spec": spec, "prefix": prefix, "kill": None, "ids": ids, "census": True},
+                                     workdir, tag)
+    if rc != 0:
+        ctx.inconclusive_case("census child rc=%s: %s" % (rc, err[-200:]))
+    return report
+
+
 def worker(ctx, job):
     workdir = scratch_dir("c23")
     try:
@@ -550,12 +569,12 @@ def worker(ctx, job):
             if job.get("sample"):
                 ctx.sample({"config": conf, "ticks": n, "crash_points": ["no kill"] + ["start of tick %d" % k for k in job["kills"] if k is not None][:5] + ["..."]})
         elif job["mode"] == "lines":
-            rep = run_scenario(ctx, conf, n, None, False, workdir, "c%dcensus" % job["index"], census=True)
+            rep = census_run(ctx, conf, n, workdir, "c%dcensus" % job["index"], count=job["part"] == 0)
             pts, cnt = line_points(rep)
             ctx.hit("census_lines", len(cnt))
             mine = pts[job["part"]::job["parts"]]
             for j, kill in enumerate(mine):
-                resume = conf["reuse"] and j % 2 == 0
+                resume = conf["reuse"] and j % 3 == 0
                 tag = "c%dl%d" % (job["index"], j)
                 run_scenario(ctx, conf, n, kill, resume, workdir, tag)
                 shutil.rmtree(os.path.join(workdir, "p-" + tag), ignore_errors=True)
@@ -570,22 +589,22 @@ def worker(ctx, job):
 
 def run(ctx):
     n = ctx.pick(20, 40)
-    confs = pick_configs(ctx.subrng("c23-configs"), ctx.pick(10, 56))
+    confs = pick_configs(ctx.subrng("c23-configs"), ctx.pick(10, 28))
     jobs = []
+    if not ctx.quick:       # the longest jobs first
+        lconfs = [c for c in confs if c["keep"] >= 1 and c["cycle"] <= 3 * DT][:4]
+        for conf in lconfs:
+            for part in range(8):
+                jobs.append({"mode": "lines", "conf": conf, "n": 16, "part": part, "parts": 8})
+        for conf in [c for c in confs if c["keep"] >= 1][:2] + [c for c in confs if c["keep"] == 0][:1]:
+            jobs.append({"mode": "strace", "conf": conf, "n": 24})
     chunk = ctx.pick(7, 14)
     for ci, conf in enumerate(confs):
         kills = [None] + list(range(1, n))
         for a in range(0, len(kills), chunk):
             jobs.append({"mode": "ticks", "conf": conf, "n": n, "kills": kills[a:a + chunk],
                          "sample": ci == 0 and a == 0})
-    if not ctx.quick:
-        lconfs = [c for c in confs if c["keep"] >= 1 and c["cycle"] <= 3 * DT][:5]
-        for conf in lconfs:
-            for part in range(8):
-                jobs.append({"mode": "lines", "conf": conf, "n": 16, "part": part, "parts": 8})
-        for conf in [c for c in confs if c["keep"] >= 1][:2] + [c for c in confs if c["keep"] == 0][:1]:
-            jobs.append({"mode": "strace", "conf": conf, "n": 24})
-    ctx.shard(jobs, timeout=ctx.pick(90, 330))
+    ctx.shard(jobs, timeout=ctx.pick(150, 340))
     ctx.extra["configurations"] = len(confs)
     ctx.extra["configuration_space"] = len(all_configs())
     ctx.extra["ticks_per_run"] = n
